@@ -899,6 +899,16 @@ def build_recordings(ctx, tdir):
                          label="opened:%s:%s" % (kind, ",".join("%s=%s" % kv for kv in sorted(opts.items()))),
                          big=False, exp_s2v=exp, ncases=12, opts=opts))
         k += 1
+    # a full-size (385-channel) recording behind file links: there a reader that loses the .meta does not
+    # fail, it silently becomes a flat 385-channel reader
+    m385 = [m for m in metas if meta_facts(Path(m).read_text())["nc"] == 385]
+    if m385:
+        m = m385[len(m385) // 2]
+        text = Path(m).read_text()
+        for cb in (False, True):
+            recs.append(dict(name="o385_%d" % cb, text=text, fs=meta_facts(text)["fs"], ns=6, nc=385, cbin=cb, chunk=3,
+                             label="opened:fixture385:access=symlink_files", big=True,
+                             opts={"access": "symlink_files"}))
     # flat binaries without a .meta file: Reader(file, nc=, ns=, fs=) — no geometry, no permutation
     S2V_AP = 2.34375e-06
     for k, (dtype, nsync, nc) in enumerate([("int16", 1, 7), ("int16", 0, 5), ("float32", 0, 4), ("int16", 2, 9)]):
